@@ -11,6 +11,14 @@
 (*   calls : requirements handed to Home Assistant's installer (same shape as a table)      *)
 (*   after, rec2 : environment and record after the run;  extra : record keys that are not  *)
 (*           package names;  exc : exception class escaping install_requirements ("" none)  *)
+(*   how   : what led to this run - "first" | "again" (install_requirements called again on  *)
+(*           the same entry) | "reload" (pyscript.reload service) | "restart" (Home          *)
+(*           Assistant stopped and started; the entry was re-created from storage)           *)
+(*   rec   : the record the previous run left in the entry (first run: the initial record); *)
+(*   loaded: the record read from the entry right before this run (after a restart: from    *)
+(*           the entry HA re-created from storage)                                           *)
+(*   disk2 : the record in HA's storage after the run, once HA has written what was pending *)
+(*           (virtual time passes);  diskextra : stored record keys that are not packages   *)
 (* Versions are sequences of naturals, <<>> = none, <<-1>> = not a version.                  *)
 (* Same Select / Decide / RecordsOk as the model.  Verdicts are total.                       *)
 EXTENDS RequirementsCore, Integers, Json, IOUtils
@@ -18,7 +26,6 @@ EXTENDS RequirementsCore, Integers, Json, IOUtils
 Cases == JsonDeserialize(IOEnv.CASES)
 P4 == {"aa", "bb", "cc", "dd"}
 
-SameVer(a, b) == IF a = NoVer \/ b = NoVer THEN a = b ELSE VEq(a, b)
 Names(t) == { t[i].p : i \in 1..Len(t) }
 Entry(t, p) == t[CHOOSE i \in 1..Len(t) : t[i].p = p].r
 \* a table (selection or installer calls) agrees with what is wanted for the packages in S
@@ -32,11 +39,13 @@ RunVerdict(r) ==
       want == [p \in P4 |-> Select(L, p)]
       ins == { p \in P4 : Decide(r.inst[p], r.rec[p], want[p], r.allow) }
   IN IF \E l \in L : ~LabelOk(l) THEN "bridge"                                 \* the generator wrote something else than it meant
+     ELSE IF ~CarryOk(r.rec, r.loaded, P4) THEN "carry"                        \* the record did not survive to this run
      ELSE IF \E i \in 1..Len(r.sels) : ~Matches(r.sels[i], L, Mentioned(L)) THEN "selection"
      ELSE IF r.exc # "" THEN "exception"
      ELSE IF ~Matches(r.calls, L, ins) THEN "install"
      ELSE IF r.extra # 0 \/ \E p \in P4 :
                ~\E ok \in RecordsOk(r.inst[p], r.rec[p], want[p], r.allow, r.after[p]) : SameVer(ok, r.rec2[p]) THEN "record"
+     ELSE IF r.diskextra # 0 \/ ~PersistOk(r.rec2, r.disk2, P4) THEN "persist"   \* storage does not hold the record
      ELSE ""
 
 RECURSIVE Runs(_, _)
